@@ -337,7 +337,7 @@ def generate(tier, seed):
     gen_var_exhaustive(add, thorough)
     gen_opt_exhaustive(add, thorough)
     gen_exp_exhaustive(add, thorough)
-    nr = 30000 if thorough else 3000
+    nr = 150000 if thorough else 3000
     for _ in range(nr):
         ln = rnd.randint(10, 30)
         r = rnd.random()
@@ -385,7 +385,7 @@ def group_of(case):
 CLAIMED = True
 TECHNIQUE = ("Lean 4 proof: hand model of etl::variant (index + active value, every union access checked, visit_with_index modelled "
              "with its next_seq mixed-radix recursion, assign/construct/destroy/comparison through that dispatch, generic three-move "
-             "swap), of optional and expected as wrappers of it, and of the converting-constructor selection, refined to a "
+             "swap), of optional and expected as wrappers of it, refined to a "
              "declarative sum-type spec for all histories; model tied to the code by exhaustive small-scope + random "
              "correspondence runs against std::variant/optional/expected")
 LEVEL_TEXT = ("etl::variant is modelled as (index, value of the active union member) with every union access behind the I == index() "
@@ -399,9 +399,9 @@ LEVEL_TEXT = ("etl::variant is modelled as (index, value of the active union mem
               "moved-from sources included. optional (engaged = index 1, reset = emplace<0>(nullopt)) and expected (value = index 0) are "
               "proved to be simulations of Option / value-or-error under that history theorem. All six relational operators of "
               "variant, of optional/optional (mixed T/U), optional/nullopt and optional/value in both operand orders are proved equal "
-              "to the std definitions for arbitrary element operator tables (NaN-like ones included); value_or, and_then, get_if, "
-              "and the left-to-right best-candidate scan of the converting constructor (after the narrowing filter) are proved equal "
-              "to their declarative specs. The model is tied to the current source on every run by executing model and implementation "
+              "to the std definitions for arbitrary element operator tables (NaN-like ones included); value_or, and_then and get_if are "
+              "proved equal to their declarative specs. Which alternative the converting constructor selects (best non-narrowing "
+              "candidate, none when tied) is modelled and compared with both libraries on every run but not proved. The model is tied to the current source on every run by executing model and implementation "
               "on the same histories (every from/to state pair x every assignment, construction, swap and comparison form over 9 "
               "variant, 4 optional, 4 expected configurations with trivially copyable, non-trivial and move-only alternatives and "
               "optional<int&>; all depth-2/3 histories; random long histories) under ASan/UBSan; the spec is validated against "
@@ -414,6 +414,9 @@ LEVEL_NOTE = ("Trusted: Lean kernel + propext/Classical.choice/Quot.sound; the h
               "in libstdc++ 12). Two members the property names do not exist in the library (expected = unexpected<G>, optional<T&> "
               "from optional<U>) and are recorded as known findings, replayed on every run.")
 CORRESPONDENCE_ONLY = [
+    "converting constructor / assignment selection: Model.select (left-to-right scan keeping the best non-narrowing candidate and a "
+    "tie flag) and Spec.select (the unique candidate strictly better than all others) are both executed on every argument type x "
+    "configuration and compared with etl and std; the theorem select_eq (scan = declarative) of DESIGN §4 is not proved",
     "optional<T&> (bind/rebind, reset, copy, swap of the pointer, write-through, comparisons): the model is a nullable cell index; "
     "compared with a pointer reference on every run, no theorem beyond the optional relational theorems it reuses",
     "or_else (optional, expected), expected::and_then / value_or / has_value / error(): modelled in the driver line by line "
